@@ -36,8 +36,8 @@ BadObs ==
     LET e == Ev IN
     {n \in {"out", "tree", "keys", "cfg"} :
         CASE n = "out"  -> ev'.out # e.out
-          [] n = "tree" -> "tree" \in DOMAIN ev' /\ CanonV(ev'.tree) # CanonV(e.tree)
-          [] n = "keys" -> "keys" \in DOMAIN ev' /\ ev'.keys # Range(e.keys)
+          [] n = "tree" -> "tree" \in DOMAIN ev' /\ ("tree" \notin DOMAIN e \/ CanonV(ev'.tree) # CanonV(e.tree))
+          [] n = "keys" -> "keys" \in DOMAIN ev' /\ ("keys" \notin DOMAIN e \/ ev'.keys # Range(e.keys))
           [] n = "cfg"  -> CanonV(cfg') # CanonV(FixV(e.cfg))}
 BadAct == {n \in {"C02_Reproduces", "C03_NoPlaintext"} :
               CASE n = "C02_Reproduces" -> ~A_Reproduces [] n = "C03_NoPlaintext" -> ~A_NoPlaintext}
